@@ -79,7 +79,7 @@ def run(c):
     if not os.path.exists(os.path.join(BIN, "rtfmt")):
         return
     rc, so, se = sh([os.path.join(BIN, "rtfmt"), "gen", "-seed", str(c.seed), "-tier", c.tier])
-    ops = so.splitlines()
+    ops = c.corpus() + so.splitlines()
     rc, impl, se = c.run_lines([os.path.join(BIN, "rtfmt"), "run"], "\n".join(ops) + "\n")
     if rc != 0 or len(impl) != len(ops):
         c.broken.append({"kind": "tie", "name": "rtfmt run failed", "detail": se[-2000:]})
